@@ -3,6 +3,7 @@ package main
 // Helpers to classify guard literals and to query value provenance.
 
 import (
+	"go/token"
 	"go/types"
 	"sort"
 	"strings"
@@ -57,12 +58,85 @@ func lookupOK(l Lit) *ssa.Lookup {
 	if l.Kind != "cond" || l.Val == nil {
 		return nil
 	}
+	if lk, ok := l.Val.(*ssa.Lookup); ok && !lk.CommaOk && boolSetMap(lk.X) {
+		return lk // m[k] on a map[K]bool that only ever stores true: the same membership test
+	}
 	ex, ok := l.Val.(*ssa.Extract)
 	if !ok || ex.Index != 1 {
 		return nil
 	}
 	lk, _ := ex.Tuple.(*ssa.Lookup)
 	return lk
+}
+
+// boolSetMap: m is a locally made map[K]bool into which only the constant true is ever stored.
+func boolSetMap(m ssa.Value) bool {
+	mt, ok := m.Type().Underlying().(*types.Map)
+	if !ok {
+		return false
+	}
+	if b, ok := mt.Elem().Underlying().(*types.Basic); !ok || b.Kind() != types.Bool {
+		return false
+	}
+	// the map value itself, or the single-assignment local variable holding it
+	holders := []ssa.Value{m}
+	if u, ok := m.(*ssa.UnOp); ok && u.Op == token.MUL {
+		cell, ok := u.X.(*ssa.Alloc)
+		if !ok {
+			return false
+		}
+		var made ssa.Value
+		nStores := 0
+		for _, r := range *cell.Referrers() {
+			switch x := r.(type) {
+			case *ssa.Store:
+				if x.Addr == cell {
+					nStores++
+					made = x.Val
+				}
+			case *ssa.UnOp:
+				holders = append(holders, x)
+			default:
+				return false // address escapes
+			}
+		}
+		if nStores != 1 {
+			return false
+		}
+		holders = append(holders, made)
+		m = made
+	}
+	if _, ok := m.(*ssa.MakeMap); !ok {
+		return false
+	}
+	n := 0
+	for _, h := range holders {
+		refs := h.Referrers()
+		if refs == nil {
+			continue
+		}
+		for _, r := range *refs {
+			switch x := r.(type) {
+			case *ssa.MapUpdate:
+				if x.Map != h {
+					return false
+				}
+				cv, isC := constBool(x.Value)
+				if !isC || !cv {
+					return false
+				}
+				n++
+			case *ssa.Lookup, *ssa.Store, *ssa.DebugRef:
+			case *ssa.Call:
+				if bi, isB := x.Call.Value.(*ssa.Builtin); !isB || bi.Name() != "len" {
+					return false
+				}
+			default:
+				return false // handed elsewhere: cannot see all writes
+			}
+		}
+	}
+	return n > 0
 }
 
 // litCall: literal is (the bool result of) a call; returns the call.
@@ -275,4 +349,20 @@ func short(s string) string {
 		return s[:220] + "…"
 	}
 	return s
+}
+
+// litOther: for an eq literal one side of which has descriptor c (a constant), the descriptor of the other side as
+// it was computed when the literal was made (i.e. in the calling context it was made in); "" if l is not that.
+func litOther(l Lit, c string) string {
+	if l.Kind != "eq" {
+		return ""
+	}
+	k := l.Key
+	if strings.HasPrefix(k, "eq("+c+", ") && strings.HasSuffix(k, ")") {
+		return k[len("eq("+c+", ") : len(k)-1]
+	}
+	if strings.HasPrefix(k, "eq(") && strings.HasSuffix(k, ", "+c+")") {
+		return k[len("eq(") : len(k)-len(", "+c+")")]
+	}
+	return ""
 }
